@@ -50,8 +50,9 @@ type ent struct {
 
 // model is the contiguous-log reference of C05: entries First..First+len-1.
 type model struct {
-	First uint64 // index of Ents[0]; meaningless when empty
-	Ents  []ent
+	First   uint64 // index of Ents[0]; meaningless when empty
+	Ents    []ent
+	Unknown bool // contents not known (only First/Last are compared)
 }
 
 func (m *model) empty() bool { return len(m.Ents) == 0 }
@@ -120,6 +121,9 @@ func checkAgainst(tag string, l *wal.WAL, m *model) {
 
 // probe asserts GetLog(i) agrees with the model for the (symbolic) index i.
 func probe(tag string, l *wal.WAL, m *model, i uint64) {
+	if m.Unknown {
+		return
+	}
 	var out raft.Log
 	err := l.GetLog(i, &out)
 	if !m.empty() && i >= m.first() && i <= m.last() {
